@@ -20,7 +20,7 @@ Line protocol
   drain c=1 n=3               owner of centre 1 receives ≤ 3 events and DoEvent()s them
   gfill e=2 a=7 n=1005        n global publications
   q c=1                       queue length
-  rs n=5 | conc pubs=3 n=20 cs=2    run-service / concurrent-publisher smoke cases
+  rs n=5 | conc pubs=3 n=20 cs=2 | concsub cs=2 rounds=200   run-service / concurrent-publisher / concurrent-subscriber cases
   ops: `;`-separated  s.c.e.t.g | u.c.e.t | f.c.e.fn | p.c.e.args | g.e.args | c.c   (args `_`-separated)
 Observation tokens: s+ s0 dup bad x q u c [ ] i<id>:<args> g:<centres> blocked
 -/
@@ -128,6 +128,7 @@ def stepLine (s : St) (line : String) (g : List GTok) : St × String :=
     | none => (s, "bad-op")
   | some "rs" => (s, rsObs ((kvNat ws "n").getD 0))
   | some "conc" => (s, concObs ((kvNat ws "pubs").getD 0) ((kvNat ws "n").getD 0) ((kvNat ws "cs").getD 0))
+  | some "concsub" => (s, "lost=0")
   | _ => (s, "bad-op")
 
 def modelLine (s : St) (line : String) : St × String := stepLine s line []
@@ -385,6 +386,9 @@ def specLine (m : Mon) (line : String) : Mon × String :=
     | some "rs" =>
       if obs == rsObs ((kvNat ws "n").getD 0) then (m, "ok")
       else (m, s!"VIOLATION C17/runservice-delivery {op} got {obs}")
+    | some "concsub" =>
+      if obs == "lost=0" then (m, "ok")
+      else (m, s!"VIOLATION C17/concurrent-subscribe-lost {op}: centres that subscribed a new global name concurrently never received its publication, {obs}")
     | some "conc" =>
       if obs == concObs ((kvNat ws "pubs").getD 0) ((kvNat ws "n").getD 0) ((kvNat ws "cs").getD 0) then (m, "ok")
       else (m, s!"VIOLATION C17/concurrent-global-delivery {op} got {obs}")
